@@ -22,6 +22,15 @@ fn handle(line: &str) -> String {
   let result = panic::catch_unwind(move || match op.as_str() {
     "lex" => just::verif::lex(&src),
     "compile" => just::verif::compile(&src),
+    "status" => {
+      // compile (lex, parse, analyze, dump, format) but answer only whether it succeeded
+      let answer = just::verif::compile(&src);
+      if answer.starts_with("{\"dump\"") {
+        serde_json::json!({"ok": true, "len": answer.len()}).to_string()
+      } else {
+        answer
+      }
+    }
     "unindent" => serde_json::json!({"text": just::verif::unindent_text(&src)}).to_string(),
     "positional" => just::verif::positional(&words),
     "widths" => {
